@@ -303,6 +303,18 @@ def run_program(items, io, model, expected, depth=0):
                 expected[target].append((" " * ind + line) if line else "")
         elif "raise" in it:
             raise Boom()
+        elif "set" in it:
+            # an indentation call whose result is not used as a scope: it holds until the enclosing scope is left
+            scope, mode, n = it["set"], it["mode"], it["n"]
+            if scope == "io":
+                io.indent(n) if mode == "set" else io.increment_indent(n)
+                targets = ["out", "err"]
+            else:
+                out = io.output if scope == "out" else io.error_output
+                out.indent(n) if mode == "set" else out.increment_indent(n)
+                targets = [scope]
+            for t in targets:
+                model[t] = n if mode == "set" else model[t] + n
         else:
             scope, mode, n = it["scope"], it["mode"], it["n"]
             saved = dict(model)
@@ -322,13 +334,13 @@ def run_program(items, io, model, expected, depth=0):
                     finally:
                         pass
             except Boom:
-                model.clear()
-                model.update(saved)
+                for t in targets:  # a scope restores the outputs it covers, nothing else
+                    model[t] = saved[t]
                 if not it.get("catch"):
                     raise
             else:
-                model.clear()
-                model.update(saved)
+                for t in targets:
+                    model[t] = saved[t]
 
 
 def has_raise(items):
@@ -349,8 +361,8 @@ def check_indent(ctx, case):
             try:
                 run_program(prog, io, model, expected)
             except Boom:
-                # uncaught at top level: scopes have been left; the trailing writes did not happen, do them now
-                model = {"out": 0, "err": 0}
+                # uncaught at top level: every scope has been left (and has restored the model on the way out);
+                # the trailing writes did not happen, do them now
                 run_program(prog[-2:], io, model, expected)
         except Exception as e:
             ctx.fail("indent", "C11.indent", case, "program runs", label, exc=e)
@@ -366,6 +378,8 @@ def program_st():
     text = st.sampled_from(["x", "line one\nline two", "a\n\nb", "é中", "", "tail\n"])
     write = st.fixed_dictionaries({"write": st.sampled_from(["out", "err"]), "text": text})
     rais = st.just({"raise": True})
+    unscoped = st.fixed_dictionaries({"set": st.sampled_from(["io", "out", "err"]), "mode": st.sampled_from(["set", "inc"]),
+                                      "n": st.integers(0, 6)})
 
     def scope(children):
         return st.fixed_dictionaries({
@@ -376,7 +390,7 @@ def program_st():
             "body": st.lists(children, max_size=4),
         })
 
-    item = st.recursive(st.one_of(write, write, write, rais), lambda ch: st.one_of(write, scope(ch)), max_leaves=12)
+    item = st.recursive(st.one_of(write, write, write, rais, unscoped), lambda ch: st.one_of(write, scope(ch)), max_leaves=12)
     return st.fixed_dictionaries({"program": st.lists(item, min_size=1, max_size=5)})
 
 
